@@ -37,7 +37,7 @@ class Worker:
     def alone_run(self, K, call, gran="instr", pre=()):
         key = (K, call, gran, pre)
         if key not in self.alone:
-            res, steps, herr, sdiff = procs.fork_call(sched.run_alone, self.sf, K, call, gran, pre, timeout=400.0)
+            res, steps, herr, sdiff = procs.fork_call(sched.run_alone, self.sf, K, call, gran, pre, timeout=600.0)
             if sdiff:
                 self.alone_changes_state.add(key)     # the call changes interpreter settings even when run alone
             if herr and herr.startswith("outcome:"):
@@ -54,7 +54,7 @@ class Worker:
         return self.alone[key]
 
     def run_spec(self, spec):
-        return procs.fork_call(sched.run, self.sf, spec, timeout=spec.get("wall", 100.0) + 50.0)
+        return procs.fork_call(sched.run, self.sf, spec, timeout=spec.get("wall", 240.0) + 50.0)
 
     def close(self):
         self.oracle.close()
@@ -316,7 +316,7 @@ def gen_spec(base_seed, i, W):
     probes = probes[:6] + [("decode", dec[-2], False, False), ("decode", dec[-1], False, True)]
     spec = {"table": K, "threads": threads, "policy": policy, "seed": "%d:schedsim:sched:%d" % (base_seed, i),
             "budget": 50 * total + 20000, "probes": probes, "theme": theme, "info": info,
-            "wall": 400.0 if gran else 100.0, "pre": list(pre)}
+            "wall": 600.0 if gran else 240.0, "pre": list(pre)}
     return spec, alone
 
 
